@@ -9,6 +9,11 @@
 (*   WriteFile / ReadByPath                      key files are (re)written, tools read them by path  *)
 (*   Build21 / Export21 / Parse21 / SetUserData / SetConstraints     certificate block v2.1          *)
 (*   Build1  / Export1  / Parse1  / SetImageLength                   certificate block v1            *)
+(*   StartT / SetSlot / AppendSlot / ClearT / AddCertificate / SetAll / ComputeT   the CONSTRUCTION HISTORY of one *)
+(*                                               table object (RKHTv1.set_rkh, CertBlockV1.set_root_key_hash *)
+(*                                               / add_certificate, HAB SrkTable.append / t[i] = item, AHAB  *)
+(*                                               SRKTable.add_record / clear): the value after ANY history   *)
+(*                                               is the documented construction over the FINAL contents      *)
 (* Nothing here is SPSDK's to change: the constructions are what the ROM / the fuses expect.         *)
 (*   key material:  a = modulus n (fixed width = key size) or X,  b = exponent e (65537 -> 3 bytes,  *)
 (*                  minimal) or Y; coordinates have the fixed width of the curve (leading zeros kept) *)
@@ -31,8 +36,9 @@ Devices == ndJsonDeserialize(IOEnv.C03_DEVICES)
 VARIABLES fs,          \* key files: slot -> [has, k, enc]
           obj,         \* the certificate-block object under test
           out,         \* the last exported block (snapshot of obj at export time)
-          act          \* the last action with its arguments and what the spec expects of it (binding point)
-vars == <<fs, obj, out, act>>
+          act,         \* the last action with its arguments and what the spec expects of it (binding point)
+          tab          \* ONE root-of-trust table object that is built by calls (construction history): [fl, slots, cert]
+vars == <<fs, obj, out, act, tab>>
 
 \* ------------------------------------------------------------------ keys
 RsaClasses == {"rsa2048", "rsa3072", "rsa4096"}
@@ -223,20 +229,21 @@ NoObj  == [kind |-> "none", keys |-> <<>>, used |-> 0, isk |-> FALSE, iskKey |->
            signer |-> FALSE, signed |-> NoSig, img |-> 0, build |-> 0]
 NoFile == [has |-> FALSE, k |-> NoKey, enc |-> Enc("none", "none")]
 Files  == 1..4
-Init == /\ fs = [f \in Files |-> NoFile] /\ obj = NoObj /\ out = NoObj /\ act = [a |-> "Init"]
+NoTab  == [fl |-> "none", slots |-> <<>>, cert |-> NoKey]
+Init == /\ fs = [f \in Files |-> NoFile] /\ obj = NoObj /\ out = NoObj /\ act = [a |-> "Init"] /\ tab = NoTab
 
 Compute(c) == /\ Legal(c)
               /\ act' = [a |-> "Compute", c |-> c, term |-> DocCase(c)]
-              /\ UNCHANGED <<fs, obj, out>>
+              /\ UNCHANGED <<fs, obj, out, tab>>
 \* the same computation through an entry point that is told the device: the RoT type is not the caller's choice, it is the one
 \* the requested revision has; the expected value is the documented construction of THAT type over the key list
 ComputeFor(fam, rev, c) == /\ LegalFor(fam, rev, c)
                            /\ act' = [a |-> "ComputeFor", fam |-> fam, rev |-> rev, c |-> c, term |-> DocCase(c)]
-                           /\ UNCHANGED <<fs, obj, out>>
+                           /\ UNCHANGED <<fs, obj, out, tab>>
 WriteFile(f, k, e) == /\ e \in PathEncs
                       /\ fs' = [fs EXCEPT ![f] = [has |-> TRUE, k |-> k, enc |-> e]]
                       /\ act' = [a |-> "WriteFile", f |-> f, k |-> k, enc |-> e]
-                      /\ UNCHANGED <<obj, out>>
+                      /\ UNCHANGED <<obj, out, tab>>
 \* a tool path reads the key list from files BY PATH: what counts is what the files hold NOW
 FileCase(rot, files, path, used) == [rot |-> rot, keys |-> [i \in 1..Len(files) |-> fs[files[i]].k],
                                      encs |-> [i \in 1..Len(files) |-> fs[files[i]].enc], path |-> path, used |-> used]
@@ -245,7 +252,7 @@ ReadByPath(rot, files, path, used) ==
   /\ Legal(FileCase(rot, files, path, used))
   /\ act' = [a |-> "ReadByPath", rot |-> rot, files |-> files, path |-> path, used |-> used,
              c |-> FileCase(rot, files, path, used), term |-> DocCase(FileCase(rot, files, path, used))]
-  /\ UNCHANGED <<fs, obj, out>>
+  /\ UNCHANGED <<fs, obj, out, tab>>
 
 Build21(ks, used, isk, iskKey, udLen, cons) ==
   /\ ShapeOK("cert_block_21", ks) /\ used \in 1..N(ks)
@@ -255,7 +262,7 @@ Build21(ks, used, isk, iskKey, udLen, cons) ==
   /\ out' = NoObj
   /\ act' = [a |-> "Build21", keys |-> ks, used |-> used, isk |-> isk, iskKey |-> iskKey, udLen |-> udLen, cons |-> cons,
              term |-> RkthV21(ks)]
-  /\ UNCHANGED fs
+  /\ UNCHANGED <<fs, tab>>
 Current(o) == [ok |-> TRUE, v |-> o.ud.v, len |-> o.ud.len, cons |-> o.cons]
 Export21 ==
   /\ obj.kind = "cb21"
@@ -266,45 +273,141 @@ Export21 ==
      IN /\ obj' = [obj EXCEPT !.signed = signed]
         /\ out' = [obj EXCEPT !.signed = signed]
   /\ act' = [a |-> "Export21", term |-> Block21(obj), rkth |-> RkthV21(obj.keys)]
-  /\ UNCHANGED fs
+  /\ UNCHANGED <<fs, tab>>
 Parse21 ==
   /\ out.kind = "cb21"
   /\ obj' = [out EXCEPT !.signer = FALSE]
   /\ act' = [a |-> "Parse21", n |-> N(out.keys), used |-> out.used, ca |-> ~out.isk, isk |-> out.isk, udLen |-> out.ud.len,
              cons |-> out.cons, term |-> RkthV21(out.keys), block |-> Block21(out)]
-  /\ UNCHANGED <<fs, out>>
+  /\ UNCHANGED <<fs, out, tab>>
 SetUserData(len) ==
   /\ obj.kind = "cb21" /\ obj.isk /\ obj.signer            \* re-signing needs the private key: not defined for a parsed block
   /\ obj' = [obj EXCEPT !.ud = [v |-> @.v + 1, len |-> len]]
   /\ act' = [a |-> "SetUserData", len |-> len, v |-> obj.ud.v + 1]
-  /\ UNCHANGED <<fs, out>>
+  /\ UNCHANGED <<fs, out, tab>>
 SetConstraints(c) ==
   /\ obj.kind = "cb21" /\ obj.isk /\ obj.signer /\ c # obj.cons
   /\ obj' = [obj EXCEPT !.cons = c]
   /\ act' = [a |-> "SetConstraints", cons |-> c]
-  /\ UNCHANGED <<fs, out>>
+  /\ UNCHANGED <<fs, out, tab>>
 
 Build1(ks, used, img, build) ==
   /\ ShapeOK("cert_block_1", ks) /\ used \in 1..N(ks)
   /\ obj' = [NoObj EXCEPT !.kind = "cb1", !.keys = ks, !.used = used, !.img = img, !.build = build, !.signer = TRUE]
   /\ out' = NoObj
   /\ act' = [a |-> "Build1", keys |-> ks, used |-> used, img |-> img, build |-> build, term |-> RkthV1(ks)]
-  /\ UNCHANGED fs
+  /\ UNCHANGED <<fs, tab>>
 Export1 ==
   /\ obj.kind = "cb1"
   /\ out' = obj
   /\ act' = [a |-> "Export1", rkth |-> RkthV1(obj.keys), table |-> TableV1(obj.keys)]
-  /\ UNCHANGED <<fs, obj>>
+  /\ UNCHANGED <<fs, obj, tab>>
 Parse1 ==
   /\ out.kind = "cb1"
   /\ obj' = [out EXCEPT !.signer = FALSE]
   /\ act' = [a |-> "Parse1", img |-> out.img, build |-> out.build, used |-> out.used, term |-> RkthV1(out.keys)]
-  /\ UNCHANGED <<fs, out>>
+  /\ UNCHANGED <<fs, out, tab>>
 SetImageLength(n) ==
   /\ obj.kind = "cb1" /\ n > 0 /\ n # obj.img
   /\ obj' = [obj EXCEPT !.img = n]
   /\ act' = [a |-> "SetImageLength", img |-> n]
-  /\ UNCHANGED <<fs, out>>
+  /\ UNCHANGED <<fs, out, tab>>
+
+\* ------------------------------------------------------------------ construction histories: ONE table object is built by calls
+\* "The RoT value depends only on the ordered list of root public keys" - hence not on the order, the repetition or the grouping of
+\* the calls that put the keys into the table.  The builders (flavours) and their public incremental API:
+\*   rkht1  RKHTv1                 set_rkh(index, hash)                         four slots, written by index in ANY order, any slot
+\*   cb1    CertBlockV1            set_root_key_hash(index, certificate | hash)  any number of times (a later write REPLACES the slot);
+\*                                 add_certificate(cert)                         empty slots are 32 x 00
+\*   hab    image.secret.SrkTable  append(item),  table[i] = item               a list: append at the end, replace an existing entry
+\*   ahab   ahab_srk.SRKTable      add_record(public key, flags),  clear()      a list: append at the end, empty it
+\*   ahab2  ahab_srk.SRKTableV2    (the same methods, inherited)
+\*   pfr1 / pfr21  pfr.CMPA of a cert_block_1 / cert_block_21 family:  export(keys = the WHOLE list)  the same page object is exported
+\*                                 again and again, each time with the key list of the moment
+\* (RKHTv21 / CertBlockV21 / the RoT meta of debug credentials have no incremental builder: the constructor takes the whole list.)
+\* The object comes to exist empty ("new"), from a key list (constructor / from_keys: "keys") or by parsing an exported table ("parsed").
+Flavours    == {"rkht1", "cb1", "hab", "ahab", "ahab2", "pfr1", "pfr21"}
+RotOfFl(fl) == CASE fl \in {"rkht1", "cb1", "pfr1"} -> "cert_block_1" [] fl = "pfr21" -> "cert_block_21" [] fl = "hab" -> "srk_table_hab"
+                 [] fl = "ahab" -> "srk_table_ahab" [] fl = "ahab2" -> "srk_table_ahab_v2"
+Indexed(fl) == fl \in {"rkht1", "cb1"}
+Whole(fl)   == fl \in {"pfr1", "pfr21"}                     \* the object is handed the whole key list in one call
+Origins(fl) == CASE fl = "rkht1" -> {"new", "keys", "parsed"} [] fl = "cb1" -> {"new", "parsed"} [] fl = "hab" -> {"new", "parsed"}
+                 [] Whole(fl) -> {"new"} [] OTHER -> {"new", "keys", "parsed"}
+\* how one key is handed to the builder: a certificate object (plain / CA), the 32-byte key hash, a public key object (AHAB: with the
+\* flags argument 0 or 0x80 = CA).  For the SRK flavours the CA flag is part of the record the value is made of; for the indexed ones it is not.
+Forms(fl)   == CASE fl = "rkht1" -> {"hash"} [] fl = "cb1" -> {"crt", "ca", "hash"} [] fl = "hab" -> {"crt", "ca"} [] OTHER -> {"pub", "pubca"}
+CaOf(fl, form) == ~Indexed(fl) /\ form \in {"ca", "pubca"}
+Slot(k, ca) == [k |-> k, ca |-> ca]
+EmptySlot   == Slot(NoKey, FALSE)
+Filled(s)   == s.k # NoKey
+Count(sl)   == Cardinality({i \in 1..Len(sl) : Filled(sl[i])})
+Contig(sl)  == \A i \in 1..Len(sl) : Filled(sl[i]) => \A j \in 1..i : Filled(sl[j])          \* no hole before a filled slot
+FinalKeys(sl) == [i \in 1..Count(sl) |-> sl[i].k]                                            \* THE ordered key list of the table
+FinalCas(sl)  == [i \in 1..Count(sl) |-> sl[i].ca]
+Pad4(sl)    == [i \in 1..4 |-> IF i <= Len(sl) THEN sl[i] ELSE EmptySlot]
+\* the asserted domain of a computation on the object: its contents ARE a key list of the property (1..4 keys without a hole - the
+\* configuration front end refuses holes, a table with a hole is not asserted -, the shape the RoT type takes, one CA flag per AHAB table)
+TabLegal(t) == /\ t.fl \in Flavours /\ Len(t.slots) <= 4 /\ Contig(t.slots) /\ Count(t.slots) >= 1
+               /\ ShapeOK(RotOfFl(t.fl), FinalKeys(t.slots))
+               /\ (t.fl \in {"ahab", "ahab2"} => \A i \in 1..4 : t.slots[i].ca = t.slots[1].ca)
+TabKeys(t)  == FinalKeys(t.slots)
+TabTerm(t)  == Doc(RotOfFl(t.fl), FinalKeys(t.slots), FinalCas(t.slots))
+TabTable(t) == DocTable(RotOfFl(t.fl), FinalKeys(t.slots), FinalCas(t.slots))
+\* certificate block v1: the slot whose key is the key of the root certificate (0 = none: such a block cannot be exported)
+CertIndex(t) == IF t.cert = NoKey \/ ~(\E i \in 1..Len(t.slots) : t.slots[i].k = t.cert) THEN 0
+                ELSE CHOOSE i \in 1..Len(t.slots) : t.slots[i].k = t.cert /\ \A j \in 1..(i - 1) : t.slots[j].k # t.cert
+InitOK(fl, origin, init, cert) ==
+  /\ fl \in Flavours /\ origin \in Origins(fl) /\ Len(init) <= 4 /\ \A i \in 1..Len(init) : Filled(init[i]) /\ (init[i].ca => ~Indexed(fl))
+  /\ (origin = "new" => init = <<>>)
+  /\ (origin = "parsed" => TabLegal([fl |-> fl, slots |-> init, cert |-> NoKey]))             \* what was parsed is an exported, legal table
+  /\ (origin = "keys" => Len(init) >= 1 /\ \A i \in 1..Len(init) : init[i].k.cls \in Classes)
+  /\ (IF fl = "cb1" /\ origin = "parsed" THEN \E i \in 1..Len(init) : init[i].k = cert ELSE cert = NoKey)   \* a parsed block has its certificate
+\* the bytes a "parsed" object is parsed from: the documented table over the key list it holds (for a v1 block: the table inside the block)
+StartImage(fl, origin, init) == IF origin = "parsed" THEN DocTable(RotOfFl(fl), FinalKeys(init), FinalCas(init)) ELSE Cat(<<>>)
+StartT(fl, origin, init, cert) ==
+  /\ InitOK(fl, origin, init, cert)
+  /\ tab' = [fl |-> fl, slots |-> IF Indexed(fl) THEN Pad4(init) ELSE init, cert |-> cert]
+  /\ act' = [a |-> "StartT", fl |-> fl, origin |-> origin, init |-> init, cert |-> cert, image |-> StartImage(fl, origin, init)]
+  /\ UNCHANGED <<fs, obj, out>>
+\* write slot i (1-based; the API counts from 0): whatever the slot held before is REPLACED, no other slot changes
+SetSlotOK(i, k, form) ==
+  /\ tab.fl # "none" /\ form \in Forms(tab.fl) /\ k.cls \in Classes
+  /\ (IF Indexed(tab.fl) THEN i \in 1..4 ELSE tab.fl = "hab" /\ i \in 1..Len(tab.slots))     \* table[i] = item: an existing entry only
+SetSlot(i, k, form) ==
+  /\ SetSlotOK(i, k, form)
+  /\ tab' = [tab EXCEPT !.slots[i] = Slot(k, CaOf(tab.fl, form))]
+  /\ act' = [a |-> "SetSlot", i |-> i, k |-> k, form |-> form]
+  /\ UNCHANGED <<fs, obj, out>>
+AppendOK(k, form) == tab.fl \in {"hab", "ahab", "ahab2"} /\ form \in Forms(tab.fl) /\ k.cls \in Classes /\ Len(tab.slots) < 4
+AppendSlot(k, form) ==
+  /\ AppendOK(k, form)
+  /\ tab' = [tab EXCEPT !.slots = Append(@, Slot(k, CaOf(tab.fl, form)))]
+  /\ act' = [a |-> "AppendSlot", k |-> k, form |-> form]
+  /\ UNCHANGED <<fs, obj, out>>
+ClearOK == tab.fl \in {"ahab", "ahab2"}
+ClearT ==
+  /\ ClearOK
+  /\ tab' = [tab EXCEPT !.slots = <<>>]
+  /\ act' = [a |-> "ClearT"]
+  /\ UNCHANGED <<fs, obj, out>>
+SetAllOK(ks) == Whole(tab.fl) /\ Len(ks) \in 1..4 /\ \A i \in 1..Len(ks) : ks[i].cls \in Classes
+SetAll(ks) ==                                               \* the next export is given THIS list: nothing of an earlier list remains
+  /\ SetAllOK(ks)
+  /\ tab' = [tab EXCEPT !.slots = [i \in 1..Len(ks) |-> Slot(ks[i], FALSE)]]
+  /\ act' = [a |-> "SetAll", keys |-> ks]
+  /\ UNCHANGED <<fs, obj, out>>
+AddCertOK(k) == tab.fl = "cb1" /\ tab.cert = NoKey /\ IsRsa(k.cls)
+AddCertificate(k) ==                                        \* the (single, self-signed) root certificate of a v1 block; chains are C02's
+  /\ AddCertOK(k)
+  /\ tab' = [tab EXCEPT !.cert = k]
+  /\ act' = [a |-> "AddCertificate", k |-> k]
+  /\ UNCHANGED <<fs, obj, out>>
+\* every way the object hands out the value / the table: the value itself, the fuse words, the table bytes, the exported and
+\* re-parsed object - all of them are the documented construction over what the slots hold NOW, however they came to hold it
+ComputeT ==
+  /\ TabLegal(tab)
+  /\ act' = [a |-> "ComputeT", fl |-> tab.fl, keys |-> TabKeys(tab), term |-> TabTerm(tab), table |-> TabTable(tab), index |-> CertIndex(tab)]
+  /\ UNCHANGED <<fs, obj, out, tab>>
 
 \* ------------------------------------------------------------------ what must always hold
 \* the exported ISK signature covers exactly the fields the block carries NOW (also after a field was changed)
@@ -318,4 +421,8 @@ ReadIsCurrent == act.a = "ReadByPath" => act.term = DocCase(FileCase(act.rot, ac
 \* a device computation yields the construction of the RoT type of the REQUESTED revision (not of another revision of the family)
 RevisionDecides == act.a = "ComputeFor" => /\ act.c.rot = RotOf(act.fam, act.rev)
                                            /\ act.term = DocCase([act.c EXCEPT !.rot = RotOf(act.fam, act.rev)])
+\* the value an object hands out does not remember how the object was built
+HistoryFree == act.a = "ComputeT" => /\ act.term = Doc(RotOfFl(tab.fl), FinalKeys(tab.slots), FinalCas(tab.slots))
+                                     /\ act.table = DocTable(RotOfFl(tab.fl), FinalKeys(tab.slots), FinalCas(tab.slots))
+                                     /\ act.keys = FinalKeys(tab.slots)
 =============================================================================
